@@ -12,6 +12,8 @@ def addr(n):
 
 
 def addr_id(a):
+    if a in ('0.0.0.0', '::'):
+        return 0
     return int(a.rsplit('.', 1)[1])
 
 
